@@ -2607,5 +2607,21 @@ func (s *ScopedKeyManager) cloneKeyWithVersion(key *hdkeychain.ExtendedKey) (
 func (s *ScopedKeyManager) InvalidateAccountCache(account uint32) {
 	s.mtx.Lock()
 	defer s.mtx.Unlock()
+
+	// The account leaves the cache, so locking the manager won't reach it
+	// anymore: clear its private key material now.
+	if acctInfo, ok := s.acctInfo[account]; ok {
+		if acctInfo.acctKeyPriv != nil {
+			acctInfo.acctKeyPriv.Zero()
+		}
+		acctInfo.acctKeyPriv = nil
+		if a, ok := acctInfo.lastExternalAddr.(*managedAddress); ok {
+			a.lock()
+		}
+		if a, ok := acctInfo.lastInternalAddr.(*managedAddress); ok {
+			a.lock()
+		}
+	}
+
 	delete(s.acctInfo, account)
 }
